@@ -1,7 +1,7 @@
 (* Props_C16.v — C16: stricter thresholds never produce a better flag.
    Only statements, `exact <lemma>` and Print Assumptions.
    (statements written out by tools/mk_props.py from the lemmas they restate) *)
-From IoosQc Require Import Base Generated Range RangeProofs Spike SpikeProofs Rate RateProofs Location LocationProofs Density DensityProofs FlatLine FlatLineProofs Attenuated AttenuatedProofs.
+From IoosQc Require Import Base Generated Range RangeProofs Spike SpikeProofs Rate RateProofs Location LocationProofs Density DensityProofs FlatLine FlatLineProofs Attenuated AttenuatedProofs Calendar Climatology ClimatologyProofs ClimStricter.
 
 
 (* gross_range_test: fail span and suspect span nested inside the old ones (a suspect span may be added): severity GOOD < SUSPECT < FAIL never decreases and the UNKNOWN/MISSING positions are unchanged *)
@@ -125,6 +125,38 @@ Theorem C16_density :
          not_evaluated (density_pt st ft rho z i) = not_evaluated (density_pt st' ft' rho z i).
 Proof. exact (@density_pt_mono). Qed.
 Print Assumptions C16_density.
+
+(* climatology_test, on the flags the code returns: every member's valid span nested inside the old one and its fail span nested inside the old one or newly given (members compared as stored by ClimatologyConfig.add, i.e. spans sorted; time / depth spans unchanged): severity never decreases, UNKNOWN / MISSING positions unchanged *)
+Theorem C16_climatology :
+  forall (config' config : list member) (xs : list obs) (ts : list Z) 
+           (zs : list obs) (i : nat),
+         Forall2 member_stricter (map add config') (map add config) ->
+         (i < length xs)%nat ->
+         let f := nth i (flags_of (clim_model config xs ts zs)) UNKNOWN in
+         let f' := nth i (flags_of (clim_model config' xs ts zs)) UNKNOWN in
+         (sev f <= sev f')%nat /\ not_evaluated f = not_evaluated f'.
+Proof. exact (@clim_model_stricter). Qed.
+Print Assumptions C16_climatology.
+
+(* the same per point: the last matching member of the strict list sits where the last matching member of the loose list sits *)
+Theorem C16_climatology_point :
+  forall (ms' ms : list member) (x : obs) (t : Z) (z : obs),
+         Forall2 member_stricter ms' ms ->
+         (sev (clim_pt ms x t z) <= sev (clim_pt ms' x t z))%nat /\
+         not_evaluated (clim_pt ms x t z) = not_evaluated (clim_pt ms' x t z).
+Proof. exact (@clim_pt_stricter). Qed.
+Print Assumptions C16_climatology_point.
+
+(* the hypothesis is satisfiable: a member gains a fail span and a narrower valid span (spans written in either order) *)
+Theorem C16_climatology_example :
+  member_stricter
+           (add
+              {|
+                m_tspan := TAbs 0 10; m_fspan := Some (0, 50); m_vspan := (12, 38); m_zspan := None
+              |})
+           (add {| m_tspan := TAbs 10 0; m_fspan := None; m_vspan := (40, 10); m_zspan := None |}).
+Proof. exact (@member_stricter_example). Qed.
+Print Assumptions C16_climatology_example.
 
 Theorem C16_suspect_before_fail :
   assign_order_gross_range_test = [MISSING; SUSPECT; FAIL] /\ assign_order_spike_test = [SUSPECT; FAIL; UNKNOWN; UNKNOWN; MISSING] /\
